@@ -745,10 +745,20 @@ def _inverse_pair(prog: Program, tf: TextFlow, fn: Func, kinds, c: ast.Call, cal
             x_arg_ok = isinstance(call, ast.Call) and len(call.args) == 2 and call.args[1] is x
         if x_arg_ok and isinstance(call, ast.Call) and (prog.dotted(call.func) or "").split(".")[-1] == "keeps_syntax_tree" and len(call.args) == 2 \
                 and dedents and norm(call.args[0]) == norm(dedents[0].args[0]):
-            test = parent(call)
-            stmt = parent(test)
-            if isinstance(test, ast.UnaryOp) and isinstance(test.op, ast.Not) and isinstance(stmt, ast.If) and stmt.test is test and stmt.body \
-                    and isinstance(stmt.body[-1], ast.Return) and stmt.lineno > dedents[0].lineno:
+            # decided on the path condition, not on the shape of the `if`: every use of the dedented text outside the comparison stands
+            # where the comparison is known to have answered yes
+            from ..pathcond import plain
+            holder = parent(dedents[0])
+            tname = holder.targets[0].id if isinstance(holder, ast.Assign) and len(holder.targets) == 1 and isinstance(holder.targets[0], ast.Name) else None
+            inside = {id(y) for y in ast.walk(call)} | ({id(y) for y in ast.walk(parent(x))} if isinstance(parent(x), ast.Assign) else set())
+            uses = [y for y in walk_own(fn.node) if isinstance(y, ast.Name) and isinstance(y.ctx, ast.Load) and y.id == tname and id(y) not in inside
+                    and (y.lineno, y.col_offset) > (dedents[0].lineno, dedents[0].col_offset)]
+            want = norm(call).replace(" ", "")
+            pa = PathAnalysis(prog, fn)
+
+            def answered_yes(w) -> bool:
+                return any(fct[0] == "lit" and fct[2] and plain(fct[1]).replace(" ", "") == want for fct in w.facts)
+            if tname and uses and all(pa.worlds_at(y) and all(answered_yes(w) for w in pa.worlds_at(y)) for y in uses[:3]):
                 fence.append(x)
     indents = [x for x in indents if x not in fence]
     if len(dedents) == 1 and len(indents) == 1 and not fence:
